@@ -201,21 +201,31 @@ def run(tier, replay=None):
         tr = M.Transform
         transforms = ([tr(tr.Type.ENCR, tr.EncrId.ENCR_AES_CBC, 256)] if cc['ipsec_proto'] == 50 else []) + [tr(tr.Type.INTEG, tr.IntegId.AUTH_HMAC_SHA2_256_128), tr(tr.Type.ESN, tr.EsnId.NO_ESN)]
         prop = M.Proposal(1, M.Proposal.Protocol.ESP if cc['ipsec_proto'] == 50 else M.Proposal.Protocol.AH, b'', transforms)
-        child = ikesa.ChildSa(inbound_spi=bytes([5, 6, 7, 8]), outbound_spi=bytes([1, 2, 3, 4]), original_proposal=prop, proposal=prop,
-                              tsi=M.TrafficSelector.from_network(net(s1['saddr'], s1['plen_s']), s1['sport'], s1['proto']),
-                              tsr=M.TrafficSelector.from_network(net(s1['daddr'], s1['plen_d']), s1['dport'], s1['proto']),
+        def ragged(nw, port, proto):
+            """a negotiated RANGE that is no network: the two addresses around the middle of nw - the smallest network that covers it is nw itself, so
+            the kernel requests must be the very same octets (`Selectors.tla` ToNetwork)"""
+            t = M.TrafficSelector.from_network(nw, port, proto)
+            if nw.num_addresses < 2:
+                return t
+            mid = nw[0] + nw.num_addresses // 2
+            return M.TrafficSelector(t.ts_type, t.ip_proto, t.start_port, t.end_port, mid - 1, mid)
+        for shape in ('network', 'range'):
+          mk = M.TrafficSelector.from_network if shape == 'network' else ragged
+          child = ikesa.ChildSa(inbound_spi=bytes([5, 6, 7, 8]), outbound_spi=bytes([1, 2, 3, 4]), original_proposal=prop, proposal=prop,
+                              tsi=mk(net(s1['saddr'], s1['plen_s']), s1['sport'], s1['proto']),
+                              tsr=mk(net(s1['daddr'], s1['plen_d']), s1['dport'], s1['proto']),
                               mode=xfrm.Mode.TUNNEL if cc['mode'] else xfrm.Mode.TRANSPORT, lifetime=60)
-        ring = collections.namedtuple('Keyring', ['sk_ai', 'sk_ar', 'sk_ei', 'sk_er'])(bytes(cc['keyring']['ai']), bytes(cc['keyring']['ar']), bytes(cc['keyring']['ei']), bytes(cc['keyring']['er']))
-        fake_ike = type('FakeIkeSa', (), {'is_initiator': cc['ike_initiator'], 'my_addr': ipaddress.ip_address('192.168.0.1'), 'peer_addr': ipaddress.ip_address('192.168.0.2')})()
-        cap.sent.clear()
-        xfrm.Xfrm.create_child_sa(fake_ike, child, ring, cc['exchange_initiator'])
-        n['child_pairs'] += 1
-        if len(cap.sent) != 2:
-            v.violation(f'create_child_sa: {len(cap.sent)} requests instead of 2', {'case': cc}, signature={'component': 'child:count'})
-            continue
-        for k, (got, want) in enumerate(zip(list(cap.sent), c['requests'])):
-            compare(f'NEWSA no. {k + 1} of create_child_sa (exchange initiator: {cc["exchange_initiator"]}, IKE_SA initiator: {cc["ike_initiator"]}, protocol {cc["ipsec_proto"]})',
-                    cc['intents'][k], got, want)
+          ring = collections.namedtuple('Keyring', ['sk_ai', 'sk_ar', 'sk_ei', 'sk_er'])(bytes(cc['keyring']['ai']), bytes(cc['keyring']['ar']), bytes(cc['keyring']['ei']), bytes(cc['keyring']['er']))
+          fake_ike = type('FakeIkeSa', (), {'is_initiator': cc['ike_initiator'], 'my_addr': ipaddress.ip_address('192.168.0.1'), 'peer_addr': ipaddress.ip_address('192.168.0.2')})()
+          cap.sent.clear()
+          xfrm.Xfrm.create_child_sa(fake_ike, child, ring, cc['exchange_initiator'])
+          n['child_pairs'] += 1
+          if len(cap.sent) != 2:
+              v.violation(f'create_child_sa: {len(cap.sent)} requests instead of 2', {'case': cc}, signature={'component': 'child:count'})
+              continue
+          for k, (got, want) in enumerate(zip(list(cap.sent), c['requests'])):
+              compare(f'NEWSA no. {k + 1} of create_child_sa (selectors negotiated as a {shape}, exchange initiator: {cc["exchange_initiator"]}, IKE_SA initiator: {cc["ike_initiator"]}, protocol {cc["ipsec_proto"]})',
+                      cc['intents'][k], got, want)
     for c in vec['flush']:
         cap.sent.clear()
         (xfrm.Xfrm.flush_policies if c['policy'] else xfrm.Xfrm.flush_sas)()
